@@ -543,6 +543,12 @@ pub fn run_line(line: &str) -> String {
             let t = SymbolVersionTable::new(VersionIndexTable::new(e, c, &vs), needs, defs);
             symver_queries(&t, idxs, &b)
         }
+        ["prefix", sp, queries, k, hexd] => {
+            let d = unhex(hexd);
+            let k = nat(k).min(d.len());
+            let d = d[..k].to_vec();
+            dispatch_spec!(*sp, run_file, queries, &d)
+        }
         ["file", sp, queries, hexd] => {
             let d = unhex(hexd);
             dispatch_spec!(*sp, run_file, queries, &d)
